@@ -24,6 +24,7 @@ import numpy as np
 
 from harness import core
 from harness import lib_c09 as L
+from harness import lib_c09_qualify as Q
 
 FINDINGS_DIR = core.VERIF / "findings"
 
@@ -477,6 +478,10 @@ def extract_real(obs):
             fresh = [o for p_ in rec["result"] for o in p_.output if o and o not in orig]
             item.update(fresh=fresh, name=p0.name, qual=all(o.startswith(p0.name + "__") for o in fresh),
                         orig_form=proto_form(p0))
+            # hypotheses of `adapted_names_fresh_strings`, observed on every real conversion: the node's name does not
+            # end in "_", the names the converter invented contain no "__" and are distinct
+            local = [o[len(p0.name) + 2:] if o.startswith(p0.name + "__") else o for o in fresh]
+            item["name_hyps"] = [Q.ends_clean(p0.name), all(Q.no_sep(o) for o in local), len(set(fresh)) == len(fresh)]
             main = [p_ for p_ in rec["result"] if set(p_.output) & set(p0.output)]
             item["conv_form"] = [proto_form(p_) for p_ in main]
             item["conv_others"] = [proto_form(p_) for p_ in rec["result"] if p_ not in main]
@@ -534,6 +539,9 @@ def compare(real, m, mismatches):
         if cls == "convert-inline" and e.get("tgt") != dict(map(tuple, rec["opsets"])).get(""):
             mismatches.append(("versions", "inline target"))
         if cls == "convert" and rec["fresh"] is not None:
+            if rec.get("name_hyps") is not None and not all(rec["name_hyps"]):
+                mismatches.append(("names", f"{rec['name']}: introduced {rec['fresh']}: a hypothesis of adapted_names_fresh_strings does "
+                                            f"not hold (node name does not end in '_', no '__' in converter names, distinct) = {rec['name_hyps']}"))
             if rec["fresh"] and rec["qual"] != bool(e.get("qualified")):
                 mismatches.append(("names", f"{rec['name']}: introduced {rec['fresh']}, model says qualified={e.get('qualified')}"))
             # the converter's observable output: the node that now defines the original outputs is
@@ -1569,12 +1577,14 @@ def run(ck: core.Check):
     if drv is not None:
         for name, fn in (("policy", lambda: check_policy(ck, drv, mismatches)),
                          ("optional floor", lambda: check_optional(ck, drv, mismatches)),
+                         ("qualify", lambda: ck.cov.__setitem__("qualify_correspondence", Q.check_qualify(
+                             ck, drv, mismatches, 3000 if ck.thorough else 400))),
                          ("schemas", lambda: check_schemas(ck, drv, info, mismatches))):
             try:
                 n = fn()
                 if name == "policy":
                     n_policy = n
-                else:
+                elif name == "schemas":
                     n_sch = n
             except Exception as e:  # noqa: BLE001
                 ck.broken("correspondence", f"C09 {name} not observable", f"{type(e).__name__}: {e}")
